@@ -29,6 +29,7 @@ type Harness struct {
 	Note     string
 	Solver   string // primary solver for this harness ("" = default)
 	ValSet   bool   // validation compares the set of assertion labels, not their multiset: how many records the harness loops over natively depends on the runtime scheduler
+	OrderDep bool   // a counterexample may hinge on the order in which the (unsteerable) native scheduler runs handler goroutines: reported even if the native run does not reproduce it; unlike Sched the harness is still validated
 	Sched    bool   // the harness explores goroutine schedules: a counterexample that the (unsteerable) native scheduler does not reproduce is still reported
 }
 
@@ -253,6 +254,15 @@ func (r *Runner) Run() int {
 				}
 			}
 		}
+		// what the lock monitor and the scheduler saw (kept with the evidence; printed under VERIF_PROFILE)
+		if os.Getenv("VERIF_PROFILE") != "" {
+			for k, n := range res.Deadlocks {
+				if len(k) > 300 {
+					k = k[:300]
+				}
+				fmt.Printf("  monitor/sched %6d  %s\n", n, k)
+			}
+		}
 		// violations: group by signature
 		bySig := map[string][]*sym.Violation{}
 		var sigs []string
@@ -297,7 +307,7 @@ func (r *Runner) Run() int {
 			if isKnown {
 				continue
 			}
-			if status == "not-reproduced" && h.Sched && v.Label != "hang" {
+			if status == "not-reproduced" && (h.Sched || h.OrderDep) && v.Label != "hang" {
 				// the violation depends on a goroutine schedule chosen by the solver; the native
 				// runtime scheduler cannot be steered, so the executor's schedule trace is the evidence
 				status = "schedule-only"
